@@ -63,7 +63,8 @@ class KeySim:
             for e in v['extra']:
                 if e[0] == world['time']['dim']:
                     e[1] = world['time']['n']
-        mats = rng.choice([['memory'], ['file'], ['memory', 'file'], ['file', 'file2'], ['file', 'mf'], ['memory', 'file', 'mf']])
+        mats = rng.choice([['memory'], ['file'], ['memory', 'file'], ['file', 'file2'], ['file', 'mf'], ['memory', 'file', 'mf'],
+                           ['file', 'chunk1'], ['file', 'chunk2', 'chunk_all'], ['chunk1', 'mf']])
         ops = []
         n_handles = len(mats)
         for _ in range(rng.randint(4, 12)):
@@ -264,6 +265,13 @@ def _key_lifetime(ctx, plan, scratch):
                 ctx.emit('file', path=os.path.basename(base_path), cls=('file', 0))
             if m in ('file', 'file2'):
                 add(xarray.open_dataset(base_path), ('file', 0))
+            elif m in ('chunk1', 'chunk2', 'chunk_all'):
+                # the same file opened lazily with dask under another chunk layout: same geometry, same key
+                probe = xarray.open_dataset(base_path)
+                sizes = dict(probe.sizes)
+                probe.close()
+                chunks = {} if m == 'chunk_all' else {d: (1 if m == 'chunk1' else 2) for d in sizes}
+                add(xarray.open_dataset(base_path, chunks=chunks), ('file', 0))
             else:
                 if mf_paths is None:
                     src = xarray.open_dataset(base_path)
